@@ -53,13 +53,18 @@ func rslLex(src string) ([]rTok, error) {
 			i = j
 		case c == '"':
 			j := i + 1
+			var sb strings.Builder
 			for j < len(src) && src[j] != '"' {
+				if src[j] == '\\' && j+1 < len(src) {
+					j++
+				}
+				sb.WriteByte(src[j])
 				j++
 			}
 			if j >= len(src) {
 				return nil, fmt.Errorf("unterminated string")
 			}
-			toks = append(toks, rTok{"str", src[i+1 : j], i})
+			toks = append(toks, rTok{"str", sb.String(), i})
 			i = j + 1
 		default:
 			for _, op := range []string{"<==>", "==>", "::", "==", "!=", "<=", ">=", "&&", "||", "&^"} {
